@@ -483,7 +483,7 @@ def contract_fn(text, opts, log, what):
         body = "{ proof { assert(false); }" + body[1:]
     if opts.get("external_body"):
         head = "#[verifier::external_body]\n" + head
-        body = "{ unimplemented!() }"
+        body = opts.get("external_body_text", "{ unimplemented!() }")     # (an `impl Fn` return type needs a closure-typed placeholder)
         log.append("external_body (body dropped and NOT verified, contract assumed)")
     if opts.get("rlimit"):
         head = "#[verifier::rlimit(%d)]\n" % opts["rlimit"] + head          # solver budget only (default 10)
